@@ -16,8 +16,9 @@ INFO = {
                    "SledDB::close -> flush), and set_metadata writes the store before the in-memory copy. R16-3 PmtreeConfig::from_str: "
                    "each JSON key literal reaches the sled::Config builder method of the same name (path, temporary, cache_capacity, "
                    "flush_every_ms, mode, use_compression), the mode strings map to the same-named variants, and Default sets all six. "
-                   "R16-4 PmTree::new = load(config) else new(depth, config) with the same configuration value; SledDB::load refuses a "
-                   "location that was not recovered; SledDB::new retries only on WouldBlock.",
+                   "R16-4 PmTree::new = load(config), and new(depth, same config) only when load reported DatabaseError(CannotLoadDatabase) - every other "
+                   "load failure is returned; SledDB::load returns Ok only for a recovered location and that error value only for an unrecovered one; "
+                   "no open failure is that value; load and new open through the same retrying routine.",
     "not_decided": "what is on disk after a crash or an injected failure at write k, and equality of root/leaves/metadata after reopen "
                    "(behaviour of sled and pmtree over histories and fault positions: dynamic; the property's suggested fault hook is not used)",
     "assumptions": ["sled::Db::flush/insert/apply_batch return Err when the write fails", "pmtree propagates the Database errors it receives"],
@@ -28,7 +29,7 @@ SWALLOW_RX = re.compile(r"std::result::Result::<T, E>::(ok|unwrap_or|unwrap_or_d
 # (function, callee regex) -> reason: failures that are legitimately turned into another attempt
 EXCEPTIONS = {
     ("rln::<pm_tree_adapter::PmTree as zerokit_utils::ZerokitMerkleTree>::new", r"MerkleTree::<D, H>::load$"):
-        "load-or-create: a location that cannot be loaded is created afresh; the creation's own failure is propagated (R16-4)",
+        "load-or-create: a location where nothing is stored is created afresh; the creation's own failure is propagated (R16-4 pins the arm to the 'nothing stored' error)",
 }
 
 
@@ -307,46 +308,105 @@ def check_config(ctx, fb):
     ctx.check(ok, "R16-3", "Default sets all keys", "all six options set explicitly", "Default applies %s" % got, loc(dit))
 
 
+def nothing_stored(rv):
+    """the error value `PmtreeErrorKind::DatabaseError(DatabaseErrorKind::CannotLoadDatabase)`"""
+    return (isinstance(rv, tuple) and rv[0] == "adt" and rv[1].endswith("result::Result") and rv[2] == "Err" and rv[4] and isinstance(rv[4][0], tuple)
+            and rv[4][0][0] == "adt" and rv[4][0][2] == "DatabaseError" and rv[4][0][4] and isinstance(rv[4][0][4][0], tuple)
+            and rv[4][0][4][0][0] == "adt" and rv[4][0][4][0][2] == "CannotLoadDatabase")
+
+
 def check_open(ctx, fb):
+    from .. import symex
+    # SledDB::load: Ok only for a recovered database; the 'nothing stored here' error exactly when it was not recovered
+    lit = fb.one(r"SledDB as (vacp2p_)?pmtree::Database>::load$")
+    ctx.touch(lit)
+    eng = Engine(fb, inline=lambda i: False)
+    good, nothing_ok, n_nothing = False, True, 0
+    openers = set()
+    for p in eng.run(lit):
+        for c in p.calls(r"sled::Config::open$|SledDB::new_with_tries$"):
+            openers.add(re.sub(r"@.*", "", c[1]).split("::")[-1])
+        if p.kind != "return":
+            continue
+        rv = eng.value_of(p.store, p.ret)
+        cm = cond_map(p)
+        rec = [v for a, v in cm.items() if a[0] == "b" and a[1][0] == "call" and a[1][1].endswith("was_recovered")]
+        if known_ok(rv) is True:
+            good = rec == [True]
+        if nothing_stored(rv):
+            n_nothing += 1
+            if rec != [False]:
+                nothing_ok = False
+    ctx.check(good, "R16-4", "SledDB::load requires was_recovered", "Ok only for a recovered (pre-existing) database", "SledDB::load can return Ok for a location that was not recovered", loc(lit))
+    ctx.check(nothing_ok and n_nothing == 1, "R16-4", "SledDB::load reports 'nothing stored' only for an unrecovered location",
+              "CannotLoadDatabase is returned on exactly the path where was_recovered() is false",
+              "SledDB::load returns CannotLoadDatabase on %d path(s), not only when the location was not recovered: the caller creates (resets) the tree on that value" % n_nothing, loc(lit))
+    # the other errors load can return come from the shared opener: none of them is the 'nothing stored' value
+    nit = fb.one(r"SledDB::new_with_tries$")
+    ctx.touch(nit)
+    e3 = Engine(fb, inline=lambda i: False)
+    bad = [p.site for p in e3.run(nit) if p.kind == "return" and nothing_stored(e3.value_of(p.store, p.ret))]
+    ctx.check(not bad, "R16-4", "open failures are not 'nothing stored'", "no failure of the opener is the CannotLoadDatabase value",
+              "SledDB::new_with_tries returns CannotLoadDatabase for an open failure: a database that cannot be opened would be re-created", loc(nit, bad[0] if bad else None))
+    # load and new open the location through the same routine (same retry policy while the previous handle releases its lock)
+    cit = fb.one(r"SledDB as (vacp2p_)?pmtree::Database>::new$")
+    ctx.touch(cit)
+    e4 = Engine(fb, inline=lambda i: False)
+    copen = set()
+    for p in e4.run(cit):
+        for c in p.calls(r"sled::Config::open$|SledDB::new_with_tries$"):
+            copen.add(re.sub(r"@.*", "", c[1]).split("::")[-1])
+    ctx.check(openers == copen == {"new_with_tries"}, "R16-4", "load and create share the opener",
+              "Database::load and Database::new both open through new_with_tries (retry while the lock of a closing handle is still held)",
+              "load opens through %s, new through %s: a transient open failure in load alone makes PmTree::new fall through to creation, which resets an existing tree" % (sorted(openers), sorted(copen)), loc(lit))
+    # PmTree::new: load(config); create only when load reported 'nothing stored'; any other load failure is an error
     it = fb.one(r"PmTree as zerokit_utils::ZerokitMerkleTree>::new$")
     ctx.touch(it)
     eng = Engine(fb, inline=inline_only(r"PmtreeConfig as std::clone::Clone>::clone$"))
+    vi_outer = symex.VARIANT_INDEX.get(("vacp2p_pmtree::PmtreeErrorKind", "DatabaseError"))
+    vi_inner = symex.VARIANT_INDEX.get(("vacp2p_pmtree::DatabaseErrorKind", "CannotLoadDatabase"))
+    if vi_outer is None or vi_inner is None:
+        raise MissingAnchor("variant indices of PmtreeErrorKind::DatabaseError / DatabaseErrorKind::CannotLoadDatabase (%s)" % sorted(k for k in symex.VARIANT_INDEX if "pmtree" in k[0]))
     oks = []
-    for p in eng.run(it):
-        if p.kind == "return" and known_ok(eng.value_of(p.store, p.ret)) is True:
-            oks.append(p)
-    loads = set()
     shape = True
     why = ""
-    for p in oks:
+    n_create = n_reject = 0
+    for p in eng.run(it):
         ld = p.calls(r"MerkleTree::<D, H>::load$")
         nw = p.calls(r"MerkleTree::<D, H>::new$")
+        is_ok = p.kind == "return" and known_ok(eng.value_of(p.store, p.ret)) is True
+        if is_ok:
+            oks.append(p)
         if len(ld) != 1:
-            shape, why = False, "a success path does not try to load the persisted tree first"
-            break
+            if is_ok or nw:
+                shape, why = False, "a path creates or returns a tree without trying to load the persisted one first"
+            continue
         cfg_l = ld[0][2][0]
-        lok = cond_map(p).get(("ok", ("call", ld[0][1], ld[0][2])))
+        lt = ("call", ld[0][1], ld[0][2])
+        cm = cond_map(p)
+        lok = cm.get(("ok", lt))
+        if cfg_l != F(P(3), "0"):
+            shape, why = False, "load uses %s, specification the caller's configuration" % sh(cfg_l, 80)
         if lok is True and nw:
             shape, why = False, "a tree that loaded successfully is re-created"
         if lok is False:
-            if len(nw) != 1:
-                shape, why = False, "load failure is not followed by exactly one creation"
-            elif nw[0][2][1] != cfg_l or nw[0][2][0] != P(1):
-                shape, why = False, "creation uses depth/config %s, load used %s" % (sh(nw[0][2], 100), sh(cfg_l, 60))
-        if cfg_l != F(P(3), "0"):
-            shape, why = False, "load uses %s, specification the caller's configuration" % sh(cfg_l, 80)
-    ctx.check(shape and len(oks) == 2, "R16-4", "PmTree::new load-or-create", "load(config) else new(depth, config) with the same configuration", why or "expected 2 success paths, found %d" % len(oks), loc(it))
-    # SledDB::load refuses unrecovered; SledDB::new_with_tries retries on WouldBlock only
-    it = fb.one(r"SledDB as (vacp2p_)?pmtree::Database>::load$")
-    ctx.touch(it)
-    eng = Engine(fb, inline=lambda i: False)
-    good = False
-    for p in eng.run(it):
-        if p.kind == "return" and known_ok(eng.value_of(p.store, p.ret)) is True:
-            cm = cond_map(p)
-            rec = [v for a, v in cm.items() if a[0] == "b" and a[1][0] == "call" and a[1][1].endswith("was_recovered")]
-            good = rec == [True]
-    ctx.check(good, "R16-4", "SledDB::load requires was_recovered", "Ok only for a recovered (pre-existing) database", "SledDB::load can return Ok for a location that was not recovered", loc(it))
+            # which error? the two discriminant tests of the match
+            ds = {sh(a[1], 200): v for a, v in cm.items() if a[0] == "d" and contains(a[1], lt)}
+            pinned = sorted(ds.values(), key=str) == sorted([("eq", vi_outer), ("eq", vi_inner)], key=str) and len(ds) == 2
+            if nw:
+                n_create += 1
+                if not pinned:
+                    shape, why = False, ("the tree is created (its depth, leaf count and left branch are rewritten) after a load failure that is not pinned to "
+                                         "DatabaseError(CannotLoadDatabase) (tests on the error: %s): an existing tree that could not be opened or read is reset" % ds)
+                elif len(nw) != 1 or nw[0][2][1] != cfg_l or nw[0][2][0] != P(1):
+                    shape, why = False, "creation uses depth/config %s, load used %s" % (sh(nw[0][2], 100), sh(cfg_l, 60))
+            elif p.kind == "return":
+                n_reject += 1
+                if is_ok:
+                    shape, why = False, "a load failure is followed by success without creation"
+    ctx.check(shape and len(oks) == 2 and n_create >= 1 and n_reject >= 1, "R16-4", "PmTree::new load-or-create",
+              "load(config); create(depth, same config) only when load reported that nothing is stored there; every other load failure is returned as Err",
+              why or "expected 2 success paths, creation and rejection arms; found %d / %d / %d" % (len(oks), n_create, n_reject), loc(it))
 
 
 def run(ctx):
